@@ -545,6 +545,7 @@ Definition prop_owner (name : bytes) : list string :=
   else if bytes_eqb name (bs "http-status-documented") || bytes_eqb name (bs "http-error-body-json") || bytes_eqb name (bs "http-log-isolation")
           || bytes_eqb name (bs "http-race-free") || bytes_eqb name (bs "http-no-panic") then ["C18"%string]
   else if bytes_eqb name (bs "http-faithful") then ["C17"%string]
+  else if bytes_eqb name (bs "http-options-agree") then ["C12"%string]
   else if bytes_eqb name (bs "http-linearizable") then ["C16"%string]
   else [].
 
